@@ -64,7 +64,23 @@ pub fn is_soa_id(id: i64) -> bool {
     id >= SOA_BASE
 }
 
+/// The model's serials are small version indexes; the real SOA serial is
+/// `SERIAL_BASE + index` in RFC 1982 arithmetic (mod 2^32), so a recorder can
+/// place the versions of one run on both sides of the 2^32 wrap while every
+/// projection (record ids, diff start/end) stays index based.
+pub static SERIAL_BASE: std::sync::atomic::AtomicU32 = std::sync::atomic::AtomicU32::new(0);
+pub fn serial_base() -> u32 {
+    SERIAL_BASE.load(std::sync::atomic::Ordering::SeqCst)
+}
+pub fn real_serial(index: u32) -> u32 {
+    serial_base().wrapping_add(index)
+}
+pub fn serial_index(real: u32) -> u32 {
+    real.wrapping_sub(serial_base())
+}
+
 pub fn soa_of(serial: u32) -> Soa<StoredName> {
+    let serial = real_serial(serial);
     Soa::new(
         Name::from_str("ns.example.").unwrap(),
         Name::from_str("h.example.").unwrap(),
@@ -116,8 +132,9 @@ pub fn data_of(id: i64) -> StoredData {
 pub fn id_of(owner: &StoredName, data: &StoredData, max_n: i64) -> Option<i64> {
     match data {
         ZoneRecordData::Soa(soa) => {
-            if owner == &apex() && soa == &soa_of(soa.serial().into_int()) {
-                Some(SOA_BASE + soa.serial().into_int() as i64)
+            let idx = serial_index(soa.serial().into_int());
+            if owner == &apex() && soa == &soa_of(idx) && idx < 100_000 {
+                Some(SOA_BASE + idx as i64)
             } else {
                 None
             }
@@ -210,7 +227,7 @@ pub fn diff_json(d: &InMemoryZoneDiff, max_n: i64) -> Value {
     };
     let (add, oa) = side(&d.added);
     let (rem, or) = side(&d.removed);
-    let mut v = json!({"s": d.start_serial.into_int(), "e": d.end_serial.into_int(),
+    let mut v = json!({"s": serial_index(d.start_serial.into_int()), "e": serial_index(d.end_serial.into_int()),
                        "add": add, "rem": rem});
     if !oa.is_empty() || !or.is_empty() {
         v["other"] = json!([oa, or]);
